@@ -981,20 +981,28 @@ def _conv_stage(ctx: Ctx, r, cases, hdr: str, first: bool):
     bad = ctx.coq_cases("conv", hdr_v, conv_cases, "chk_conv", shard=700)
     for i in (bad or [])[:6]:
         ctx.disagreement("conv", meta[i], "model verdict (lexer, parser, of_tree, conv) differs from convert_expression_string_to_predicate")
-    # evidence (non-vacuity): on a fixed-size sample, on how many cases does the model commit to Accept / Reject
+    # evidence (non-vacuity): on a fixed-size sample, what the model says (Accept / Reject / NoClaim)
     step = max(1, -(-len(conv_cases) // 300))
     sample = list(range(0, len(conv_cases), step))
-    noclaim = ctx.coq_cases("conv_claims", hdr_v, [conv_cases[i] for i in sample], "chk_conv_claims", shard=700)
-    if noclaim is not None:
-        nc = set(noclaim)
-        for j, i in enumerate(sample):
-            m = meta[i]
-            ctx.hist("conv_model_sample", "no-claim" if j in nc else ("accept" if m["real"] == "accept" else "reject"))
+    nclaim = None
+    if sample:
+        rc, out = ctx.coq_eval("conv_verdicts", hdr_v + "Definition vcode (c : conv_case) : N := match case_verdict c with Accept => 0%N | Reject => 1%N | NoClaim => 2%N end.\n",
+                               "List.map vcode [" + ";\n ".join(conv_cases[i] for i in sample) + "]", timeout=600)
+        m_ = re.search(r"=\s*\[(.*?)\]\s*:\s*list N", out, re.S)
+        if rc == 0 and m_:
+            codes_ = [int(x) for x in re.findall(r"(\d+)%N", m_.group(1))]
+            if len(codes_) == len(sample):
+                nclaim = 0
+                for cde in codes_:
+                    ctx.hist("conv_model_sample", ("accept", "reject", "no-claim")[cde])
+                    nclaim += cde == 2
+        if nclaim is None:
+            ctx.log("conv_verdicts: could not evaluate the verdict sample (evidence only): " + out[-300:])
     for m in meta:
         if m["real"] == "invalid" and m["kind"] in ("illtyped-family", "conv-edge", "valid"):
             ctx.nontrivial("conv:" + m["s"])
     ctx.log(f"correspondence conv: {len(conv_cases)} cases, disagreements {None if bad is None else len(bad)}; "
-            f"sample of {len(sample)}: model makes no claim on {None if noclaim is None else len(noclaim)}")
+            f"sample of {len(sample)}: model makes no claim on {nclaim}")
 
 
 def _numlit_stage(ctx: Ctx, r, hdr: str):
